@@ -122,3 +122,26 @@ void c20_inst_all()
     ma.convert(mb);
   }
 }
+
+// cross-type clones where exactly one of the two types changes, for every class that offers a templated clone:
+// Container::assign / convert share the arrays of the unchanged type, so these are the instantiations in which a clone
+// overload that delegates to convert/assign can alias its source (clone-cross-type rules of C02 / C20)
+template<typename A_, typename B_, typename C_>
+void inst_mixed_clone(A_& a, const B_& same_dt_other_it, const C_& other_dt_same_it)
+{
+  a.clone(same_dt_other_it, CloneMode::Deep);
+  a.clone(other_dt_same_it, CloneMode::Deep);
+}
+
+void c20_inst_mixed_clones()
+{
+  { DenseVectorBlocked<DT, IT, 2> a; DenseVectorBlocked<DT, IT2, 2> b; DenseVectorBlocked<DT2, IT, 2> c; inst_mixed_clone(a, b, c); }
+  { SparseVector<DT, IT> a; SparseVector<DT, IT2> b; SparseVector<DT2, IT> c; inst_mixed_clone(a, b, c); }
+  { SparseVectorBlocked<DT, IT, 2> a; SparseVectorBlocked<DT, IT2, 2> b; SparseVectorBlocked<DT2, IT, 2> c; inst_mixed_clone(a, b, c); }
+  { DenseMatrix<DT, IT> a; DenseMatrix<DT, IT2> b; DenseMatrix<DT2, IT> c; inst_mixed_clone(a, b, c); }
+  { SparseMatrixCSR<DT, IT> a; SparseMatrixCSR<DT, IT2> b; SparseMatrixCSR<DT2, IT> c; inst_mixed_clone(a, b, c); }
+  { SparseMatrixBCSR<DT, IT, 2, 3> a; SparseMatrixBCSR<DT, IT2, 2, 3> b; SparseMatrixBCSR<DT2, IT, 2, 3> c; inst_mixed_clone(a, b, c); }
+  { SparseMatrixCSCR<DT, IT> a; SparseMatrixCSCR<DT, IT2> b; SparseMatrixCSCR<DT2, IT> c; inst_mixed_clone(a, b, c); }
+  { SparseMatrixBanded<DT, IT> a; SparseMatrixBanded<DT, IT2> b; SparseMatrixBanded<DT2, IT> c; inst_mixed_clone(a, b, c); }
+  { MatrixMirrorBuffer<DT, IT> a; MatrixMirrorBuffer<DT, IT2> b; MatrixMirrorBuffer<DT2, IT> c; inst_mixed_clone(a, b, c); }
+}
